@@ -294,11 +294,7 @@ func (p *Prog) idCompare(c *Ctx, rule string, fname string, isPeer func(info *ty
 			}
 			found = true
 			// mismatch edge: every path returns a non-nil error
-			seen := g.Reach([]*Node{e.To}, func(x *Node) bool {
-				rs, isR := x.Ast.(*ast.ReturnStmt)
-				return isR && len(rs.Results) > 0 && p.isNonNilExpr(f, rs.Results[len(rs.Results)-1])
-			}, nil)
-			if _, miss := seen[g.Exit]; miss {
+			if !p.failsOnEveryPath(f, e.To) {
 				ok = false
 			}
 			// and success returns are only behind the equality
@@ -754,7 +750,7 @@ func ruleMuxSer(c *Ctx) {
 		if !ok {
 			return true
 		}
-		if cl, ok := ast.Unparen(ss.Value).(*ast.CompositeLit); ok {
+		if cl, ok := ast.Unparen(p.Deref(sm, ss.Value)).(*ast.CompositeLit); ok {
 			for _, el := range cl.Elts {
 				if kv, ok := el.(*ast.KeyValueExpr); ok && identObj(sinfo, kv.Value) == connV {
 					okRoute = true
@@ -768,4 +764,45 @@ func ruleMuxSer(c *Ctx) {
 	} else {
 		c.R.Violate("R-MUXSER", p.Pos(sm.Node()), sm.Name, "knocked stream handed to its listener", "the accepted stream is not what is sent to the knocked id's listener", nil)
 	}
+}
+
+// failsOnEveryPath: every feasible path from start ends in a return whose
+// last (error) result is certainly non-nil: a fresh error value, or an error
+// variable that is non-nil on that path (path domain).
+func (p *Prog) failsOnEveryPath(f *Func, start *Node) bool {
+	g := p.Graph(f)
+	info := f.Pkg.TypesInfo
+	isRet := func(x *Node) bool { _, ok := x.Ast.(*ast.ReturnStmt); return ok }
+	if rs, ok := start.Ast.(*ast.ReturnStmt); ok {
+		return len(rs.Results) > 0 && p.isNonNilExpr(f, rs.Results[len(rs.Results)-1])
+	}
+	states := p.FeasibleStates(f, []*Node{start}, NewStore(), nil, nil, nil, isRet)
+	if _, r := states[g.Exit]; r {
+		return false
+	}
+	n := 0
+	for m, sts := range states {
+		rs, ok := m.Ast.(*ast.ReturnStmt)
+		if !ok {
+			continue
+		}
+		n++
+		if len(rs.Results) == 0 {
+			return false
+		}
+		last := rs.Results[len(rs.Results)-1]
+		if p.isNonNilExpr(f, last) {
+			continue
+		}
+		v, isV := identObj(info, last).(*types.Var)
+		if !isV || v.IsField() {
+			return false
+		}
+		for _, st := range sts {
+			if st.Get("P:"+varKey(v)) != "NN" {
+				return false
+			}
+		}
+	}
+	return n > 0
 }
